@@ -135,6 +135,7 @@ def enumerate_cases(tier):
                         yield {"kind": "node", "ntype": ntype, "site": site, "components": comp, "image": image,
                                "mgmt": mgmt}
     yield from _rehome_cases()
+    yield from _twin_cases()
     for t in PINNED_SERVICE:
         for n in range(0, 5):
             if t == "PortMirror" and n != 1:
@@ -173,6 +174,18 @@ def _rehome_cases():
                                                     "props": [], "rehome": True}]}
 
 
+def _twin_cases():
+    """interfaces that end up with the SAME library-generated service-port name ('<node>-<interface>'): sub-interfaces
+    of one name on different ports of one node. Counting must go by interface, not by name."""
+    for t in PINNED_SERVICE:
+        if t == "PortMirror":
+            continue
+        for n in (2, 3):
+            for extra in ([], [["DedicatedPort", 0]], [["DedicatedPort", 1]]):
+                yield {"kind": "svc", "services": [{"type": t, "ifs": [["SubInterface", 0]] * n + extra,
+                                                    "declared": None, "props": [], "twins": True}]}
+
+
 @st.composite
 def _multi(draw):
     svcs = []
@@ -181,6 +194,7 @@ def _multi(draw):
         n = 1 if t == "PortMirror" else draw(st.integers(0, 4))
         svcs.append({"type": t, "late": 0 if t == "PortMirror" else draw(st.sampled_from([0, 0, 1, 2])),
                      "rehome": t != "PortMirror" and draw(st.integers(0, 3)) == 0,
+                     "twins": draw(st.integers(0, 3)) == 0,
                      "ifs": [[draw(st.sampled_from(KINDS)), draw(st.integers(0, 2))] for _ in range(n)],
                      "declared": draw(st.sampled_from([None, None, "match", "other"])),
                      "props": draw(st.lists(st.sampled_from(PROPS), unique=True, max_size=2))})
@@ -258,10 +272,23 @@ def run_case(case):
         t = it.topo
         n_nodes = [0]
 
-        def mk_interface(kind, site_idx):
+        twin_home = {}
+
+        def mk_interface(kind, site_idx, twins=None):
             n_nodes[0] += 1
             k = n_nodes[0]
             site = SITES[site_idx]
+            if twins is not None and kind == "SubInterface":
+                # sub-interfaces of one name on the ports of one two-port card (a second card on the same node when
+                # the ports run out): their service ports get one and the same library-generated name
+                home = twin_home.setdefault((twins, site_idx), {"node": None, "ports": []})
+                if home["node"] is None:
+                    home["node"] = t.add_node(name=f"n{k}", site=site)
+                if not home["ports"]:
+                    c = home["node"].add_component(name=f"nic{k}", model_type=ComponentModelType.SmartNIC_ConnectX_6)
+                    home["ports"] = list(c.interface_list)
+                labels.add("same-named-service-ports")
+                return home["ports"].pop(0).add_child_interface(name="twin", labels=Labels(vlan=str(100 + k)))
             if kind == "FacilityPort":
                 f = t.add_facility(name=f"fac{k}", site=site)
                 return f.interface_list[0]
@@ -283,7 +310,7 @@ def run_case(case):
         partial = False
         for si, svc in enumerate(case["services"]):
             c = PINNED_SERVICE[svc["type"]]
-            ifs = [mk_interface(k, s) for k, s in svc["ifs"]]
+            ifs = [mk_interface(k, s, twins=si if svc.get("twins") else None) for k, s in svc["ifs"]]
             declared = None
             if svc["declared"] == "match" and svc["ifs"]:
                 declared = SITES[svc["ifs"][0][1]]
